@@ -16,6 +16,7 @@ The judgements below are generic; which sites are acceptable for a property is d
 from __future__ import annotations
 
 import ast
+import re
 from dataclasses import dataclass, field
 
 from .astutil import guard_facts, unparse, walk_local
@@ -248,3 +249,53 @@ def returns_mutable(fn: ast.AST) -> bool:
             if _fresh(v) or (isinstance(v, ast.Name) and any(_fresh(x) for x in defs.get(v.id, []))):
                 return True
     return False
+
+
+IR_MUTABLE = ("Operation", "IRDLOperation", "Block", "Region", "ModuleOp", "SSAValue", "OpResult", "BlockArgument")
+
+
+def stale_on_ir_object(site: MemoSite, module_tree: ast.AST | None = None) -> str | None:
+    """A fill-on-miss table that lives *on* an IR object handed in as a parameter (`obj.__dict__[k]`, `op._memo[k]`) and
+    whose value is computed from that same object.  Operations, blocks, regions and values are mutable through their public
+    API (attribute / property dictionaries, operand and successor setters, insertion and erasure) and have no hook that would
+    tell a foreign cache; unless the module drops the entry somewhere, it outlives the state it was computed from.
+    Returns the parameter, or None."""
+    if site.kind != "table" or site.value is None:
+        return None
+    a = site.fn.args
+    ann = {x.arg: unparse(x.annotation) for x in a.posonlyargs + a.args + a.kwonlyargs if x.annotation is not None}
+    root = site.table.split(".")[0].split("[")[0]
+    if root not in ann or not any(re.search(rf"\b{t}\b", ann[root]) for t in IR_MUTABLE):
+        return None
+    if site.table == root:
+        return None
+    used, _ = _value_reads(site)
+    if root not in used:
+        return None
+    # only class-level information of the object is read: nothing that can change
+    defs = _locals_defs(site.fn)
+    exprs = [site.value] + [v for vs in defs.values() for v in vs]
+    reads = [n for e in exprs for n in ast.walk(e) if isinstance(n, ast.Name) and n.id == root]
+    par: dict[int, ast.AST] = {}
+    for e in exprs:
+        for n in ast.walk(e):
+            for c in ast.iter_child_nodes(n):
+                par[id(c)] = n
+    state = False
+    for n in reads:
+        p_ = par.get(id(n))
+        if isinstance(p_, ast.Call) and unparse(p_.func) in ("type", "id") and p_.args and p_.args[0] is n:
+            continue
+        if isinstance(p_, ast.Attribute) and p_.attr in ("__class__", "__dict__"):
+            continue
+        state = True
+    if not state:
+        return None
+    if module_tree is not None:
+        tail = site.table.split(".", 1)[1] if "." in site.table else ""
+        for n in ast.walk(module_tree):
+            if isinstance(n, ast.Delete) and any(tail and tail in unparse(t) for t in n.targets):
+                return None
+            if isinstance(n, ast.Call) and isinstance(n.func, ast.Attribute) and n.func.attr in ("pop", "clear", "popitem") and tail and tail in unparse(n.func.value):
+                return None
+    return root
